@@ -97,8 +97,6 @@ func (p *parser) getStatementStart(src string) string {
 
 // locateKeyName locates and parses key name and returns rest of slice
 func (p *parser) locateKeyName(src string) (string, string, bool, error) {
-	var key string
-	var inherited bool
 	// trim "export" and space at beginning
 	if exportRegex.MatchString(src) {
 		// we use a `strings.trim` to preserve the pointer to the same underlying memory.
@@ -106,8 +104,10 @@ func (p *parser) locateKeyName(src string) (string, string, bool, error) {
 		src = strings.TrimLeftFunc(strings.TrimPrefix(src, "export"), isSpace)
 	}
 
+	// a name that runs to the end of the source is inherited from the environment, like a name ended by a line break
+	key, offset, inherited := src, len(src), true
+
 	// locate key name end and validate it in single loop
-	offset := 0
 loop:
 	for i, rune := range src {
 		if isSpace(rune) {
